@@ -48,10 +48,17 @@ type G struct {
 	resultMapV map[*types.Func][]Ord
 	sortsParam map[*types.Func]map[int]bool
 	funcCtx    map[*types.Func]bool // called from an unordered context
+	paramStore map[*types.Func]paramStoreSummary
 	changed    bool
 	why        map[string]string // first reason a cell became Unord
 	choice     map[string]string // construct -> position
 	trace      bool
+}
+
+// paramStoreSummary: the function stores its parameter vals[0] under a key made of the parameters keys (indexes).
+type paramStoreSummary struct {
+	keys, vals []int
+	desc, pos  string
 }
 
 func (g *G) set(m map[types.Object]Ord, o types.Object, v Ord, why string) {
@@ -99,6 +106,34 @@ type fstate struct {
 	loops  []loopCtx
 	retOrd []Ord
 	retMap []Ord
+	// slices known to hold exactly one element here (stable rendering -> nesting count): under `len(x) == 1 && ...`
+	// and inside `if len(x) == 1 { ... }`
+	singleton map[string]int
+}
+
+// singletonOf: e is (or starts, as the left end of a conjunction) the test `len(x) == 1`; returns the stable rendering of x.
+func (s *fstate) singletonOf(e ast.Expr) string {
+	if s.singleton == nil {
+		s.singleton = map[string]int{}
+	}
+	e = ast.Unparen(e)
+	if be, ok := e.(*ast.BinaryExpr); ok {
+		if be.Op == token.LAND {
+			return s.singletonOf(be.X)
+		}
+		if be.Op == token.EQL {
+			for _, pr := range [][2]ast.Expr{{be.X, be.Y}, {be.Y, be.X}} {
+				c, isC := ast.Unparen(pr[0]).(*ast.CallExpr)
+				lit, isL := ast.Unparen(pr[1]).(*ast.BasicLit)
+				if isC && isL && lit.Value == "1" && len(c.Args) == 1 {
+					if id, isID := c.Fun.(*ast.Ident); isID && id.Name == "len" {
+						return core.Stable(s.info, c.Args[0])
+					}
+				}
+			}
+		}
+	}
+	return ""
 }
 
 func (s *fstate) pos(n ast.Node) string {
@@ -376,6 +411,15 @@ func (s *fstate) ord(e ast.Expr) Ord {
 	case *ast.BasicLit:
 		return Det
 	case *ast.BinaryExpr:
+		if x.Op == token.LAND {
+			if k := s.singletonOf(x.X); k != "" {
+				lo := s.ord(x.X)
+				s.singleton[k]++
+				ro := s.ord(x.Y)
+				s.singleton[k]--
+				return maxOrd(lo, ro)
+			}
+		}
 		r := maxOrd(s.ord(x.X), s.ord(x.Y))
 		if r != Det && x.Op == token.ADD {
 			return Txt
@@ -396,6 +440,11 @@ func (s *fstate) ord(e ast.Expr) Ord {
 			return maxOrd(s.getMapV(c), s.getMapV(o))
 		}
 		// element of slice: content of element; if slice Seq-unordered and index is a literal -> choice site
+		// (not when the slice is known to hold exactly one element: a singleton has no order)
+		if s.singleton[core.Stable(s.info, x.X)] > 0 {
+			s.ord(x.X)
+			return Det
+		}
 		if so := s.ord(x.X); so&Txt != 0 {
 			defer func() {}()
 			if _, isLit := x.Index.(*ast.BasicLit); isLit && so&Unord != 0 {
@@ -522,6 +571,27 @@ func (s *fstate) call(c *ast.CallExpr, idx int) Ord {
 	argOrds := make([]Ord, len(c.Args))
 	for i, a := range c.Args {
 		argOrds[i] = s.ord(a)
+	}
+	if ps, ok := g.paramStore[fn]; ok && fn != nil {
+		var keys, vals []ast.Expr
+		okIdx := true
+		for _, i := range ps.keys {
+			if i >= len(c.Args) {
+				okIdx = false
+				break
+			}
+			keys = append(keys, c.Args[i])
+		}
+		for _, i := range ps.vals {
+			if i >= len(c.Args) {
+				okIdx = false
+				break
+			}
+			vals = append(vals, c.Args[i])
+		}
+		if okIdx && (s.inLoopUnord() || g.funcCtx[s.d.fn]) && !s.keysDetermine(keys, vals) {
+			s.choiceAt(c, "call of "+fn.Name()+": "+ps.desc)
+		}
 	}
 	if c == capture {
 		captured = append([]Ord{}, argOrds...)
@@ -705,7 +775,13 @@ func (s *fstate) assign(lhs ast.Expr, rhs ast.Expr, rhsOrd Ord, tok token.Token,
 				// stores into state that outlives the call: which element wins for a key is order-dependent
 				// unless the stored value is determined by the key
 				if !s.keyDetermined(lx.Index, rhs) {
-					s.choiceAt(n, "per-element store "+core.Stable(s.info, lhs)+" whose value is not determined by its key (first/last element wins)")
+					// a helper that stores one of its parameters under a key made of other parameters cannot be judged
+					// here: whether the value is determined by the key is decided at each of its call sites
+					if ks, vs, ok := s.paramOnlyStore(lhs, rhs); ok {
+						g.paramStore[s.d.fn] = paramStoreSummary{keys: ks, vals: vs, desc: "per-element store " + core.Stable(s.info, lhs) + " whose value is not determined by its key (first/last element wins)", pos: s.pos(n)}
+					} else {
+						s.choiceAt(n, "per-element store "+core.Stable(s.info, lhs)+" whose value is not determined by its key (first/last element wins)")
+					}
 				}
 			}
 			return
@@ -984,7 +1060,16 @@ func (s *fstate) stmt(st ast.Stmt) {
 			s.stmt(x.Init)
 		}
 		s.ord(x.Cond)
-		s.branches(func() { s.block(x.Body.List) }, func() {
+		single := s.singletonOf(x.Cond)
+		s.branches(func() {
+			if single != "" {
+				s.singleton[single]++
+			}
+			s.block(x.Body.List)
+			if single != "" {
+				s.singleton[single]--
+			}
+		}, func() {
 			if x.Else != nil {
 				s.stmt(x.Else)
 			}
@@ -1160,6 +1245,73 @@ func (s *fstate) keyDetermined(key, val ast.Expr) bool {
 	return true
 }
 
+// keysDetermine: every variable the values are computed from also feeds one of the keys (and no key is lossy).
+func (s *fstate) keysDetermine(keys, vals []ast.Expr) bool {
+	kv, vv := map[types.Object]bool{}, map[types.Object]bool{}
+	lossy := false
+	for _, k := range keys {
+		s.lossy = false
+		s.closureVars(k, 0, kv)
+		if s.lossy {
+			lossy = true
+		}
+	}
+	for _, v := range vals {
+		s.closureVars(v, 0, vv)
+	}
+	if len(kv) == 0 || lossy {
+		return false
+	}
+	for o := range vv {
+		if !kv[o] {
+			return false
+		}
+	}
+	return true
+}
+
+// paramOnlyStore: in `m[k1][k2] = v` (m rooted at a parameter) every key and the value are plain parameters of the
+// current function; returns their parameter indexes (positions in the call's argument list; methods are not handled).
+func (s *fstate) paramOnlyStore(lhs, rhs ast.Expr) (keys, vals []int, ok bool) {
+	sig := s.d.fn.Type().(*types.Signature)
+	if sig.Recv() != nil {
+		return nil, nil, false
+	}
+	idx := func(e ast.Expr) int {
+		id, isID := ast.Unparen(e).(*ast.Ident)
+		if !isID {
+			return -1
+		}
+		for i := 0; i < sig.Params().Len(); i++ {
+			if s.info.ObjectOf(id) == sig.Params().At(i) {
+				return i
+			}
+		}
+		return -1
+	}
+	e := ast.Unparen(lhs)
+	for {
+		ix, isIx := e.(*ast.IndexExpr)
+		if !isIx {
+			break
+		}
+		i := idx(ix.Index)
+		if i < 0 {
+			return nil, nil, false
+		}
+		keys = append(keys, i)
+		e = ast.Unparen(ix.X)
+	}
+	if idx(e) < 0 || len(keys) == 0 {
+		return nil, nil, false
+	}
+	v := idx(rhs)
+	if v < 0 {
+		return nil, nil, false
+	}
+	return keys, []int{v}, true
+}
+
 func (s *fstate) inLoopUnord() bool {
 	for _, l := range s.loops {
 		if l.unord {
@@ -1256,7 +1408,7 @@ func Run(p *core.Program, sources []Source) *Result {
 		decls[fd.Obj] = &decl{pkg: fd.Pkg, fd: fd.Decl, fn: fd.Obj}
 	}
 	g = &G{fieldOrd: map[types.Object]Ord{}, mapVals: map[types.Object]Ord{}, paramOrd: map[types.Object]Ord{}, resultOrd: map[*types.Func][]Ord{},
-		resultMapV: map[*types.Func][]Ord{}, sortsParam: map[*types.Func]map[int]bool{}, funcCtx: map[*types.Func]bool{}, why: map[string]string{}, choice: map[string]string{}}
+		resultMapV: map[*types.Func][]Ord{}, sortsParam: map[*types.Func]map[int]bool{}, funcCtx: map[*types.Func]bool{}, paramStore: map[*types.Func]paramStoreSummary{}, why: map[string]string{}, choice: map[string]string{}}
 	var order []*decl
 	for _, d := range decls {
 		order = append(order, d)
